@@ -57,9 +57,7 @@ pub(crate) fn parse_directive(jsx_attr: &JSXAttr, is_component: bool) -> Directi
         JSXAttrName::JSXNamespacedName(JSXNamespacedName { ns, name, .. }) => {
             let mut splitted = name.sym.split('_');
             (
-                normalize_directive_name(
-                    ns.sym.trim_start_matches('v').trim_start_matches('-'),
-                ),
+                normalize_directive_name(ns.sym.trim_start_matches('v').trim_start_matches('-')),
                 Some(splitted.next().unwrap_or(&*name.sym)),
                 splitted,
             )
@@ -310,6 +308,15 @@ fn parse_v_model_directive(
         value = attr_value.clone();
     }
 
+    if !is_assignable(&value) && !matches!(&value, Expr::Ident(ident) if ident.sym.is_empty()) {
+        HANDLER.with(|handler| {
+            handler.span_err(
+                jsx_attr.span,
+                "The value bound by `v-model` must be an identifier or a member expression.",
+            );
+        });
+    }
+
     Directive::VModel(VModelDirective {
         argument: argument.clone(),
         transformed_argument: if !is_component
@@ -335,6 +342,20 @@ fn parse_v_model_directive(
         modifiers: modifiers.and_then(|modifiers| transform_modifiers(modifiers, is_component)),
         value,
     })
+}
+
+/// Whether `expr = …` is a valid assignment, i.e. `v-model` can write back to it.
+pub(crate) fn is_assignable(expr: &Expr) -> bool {
+    match expr {
+        Expr::Ident(ident) => !ident.sym.is_empty(),
+        Expr::Member(..) | Expr::SuperProp(..) => true,
+        Expr::Paren(ParenExpr { expr, .. })
+        | Expr::TsAs(TsAsExpr { expr, .. })
+        | Expr::TsNonNull(TsNonNullExpr { expr, .. })
+        | Expr::TsTypeAssertion(TsTypeAssertion { expr, .. })
+        | Expr::TsSatisfies(TsSatisfiesExpr { expr, .. }) => is_assignable(expr),
+        _ => false,
+    }
 }
 
 fn transform_modifiers(modifiers: BTreeSet<Atom>, quote_prop: bool) -> Option<Expr> {
